@@ -64,10 +64,12 @@ def value_id(v):
     return int(v)
 
 
-def spec_for(chain, upto, ondisk, tag, dd=None):
+def spec_for(chain, upto, ondisk, tag, dd=None, cls=None):
     spec = None
     for i in range(upto + 1):
         spec = {"id": tag * 100 + i, "own": [[k, d] for k, d, _ in chain[i]], "parent": spec, "ondisk": ondisk[i]}
+        if cls and cls[i]:
+            spec["cl"] = 1
         if dd and dd[i] and not ondisk[i]:
             spec["dd"] = True
     return spec
@@ -121,10 +123,17 @@ def run(tier, seed):
 
             def backend():
                 return FilesystemStorageBackend(path=path, memory_cache_mb=1 if cache else None)
+
+            def backend2():
+                return FilesystemStorageBackend(path=path + "-other", memory_cache_mb=1 if cache else None)
+            # some chains alternate between two clusters that keep their results in different stores
+            cls = [(ci % 4 == 2) and rng.random() < 0.5 for _ in chain]
             b = backend()
-            fnlib.set_env(m, scratch, {"fc": (b, None)})
+            bx = backend2()
+            fnlib.set_env(m, scratch, {"fc": (b, None), "fc2": (bx, None)})
             provs = []
-            meta = {"chain(root first)": [[(k, vid) for k, _, vid in own] for own in chain], "ondisk": ondisk, "default_factory_dict": dd, "cache": cache}
+            meta = {"chain(root first)": [[(k, vid) for k, _, vid in own] for own in chain], "ondisk": ondisk, "default_factory_dict": dd, "cache": cache,
+                    "cluster_of_link": ["fc2" if c else "fc" for c in cls]}
             stats["chains"][length] = stats["chains"].get(length, 0) + 1
             stats["ondisk_links"] += sum(ondisk)
             ok = True
@@ -139,14 +148,15 @@ def run(tier, seed):
                 if prov == "disk":
                     if cache:
                         b._memory_cache.forget_everything()
+                        bx._memory_cache.forget_everything()
                 elif prov == "fresh" and i > 0:
                     # forget the parent link only, so that the nested call computes it again in this process
-                    fnmod.pnode.forget(spec_for(chain, i - 1, ondisk, ci, dd))
+                    fnmod.pnode_fn(spec_for(chain, i - 1, ondisk, ci, dd, cls)).forget(spec_for(chain, i - 1, ondisk, ci, dd, cls))
                 provs.append(prov)
                 stats["provenance"][prov] = stats["provenance"].get(prov, 0) + 1
-                spec = spec_for(chain, i, ondisk, ci, dd)
+                spec = spec_for(chain, i, ondisk, ci, dd, cls)
                 try:
-                    first = fnmod.pnode(spec)
+                    first = fnmod.pnode_fn(spec)(spec)
                     got_first = read_partition(first)
                 except Exception as e:
                     rep.violation("C17:call-raised", "building link %d raised %s: %s" % (i, type(e).__name__, str(e)[:150]), dict(meta, provenance=provs))
@@ -155,7 +165,7 @@ def run(tier, seed):
                 want = overlay(chain, i)
                 want_own = sorted(k for k, _, _ in chain[i])
                 meta_i = dict(meta, link=i, provenance=list(provs))
-                if fnmod.pnode.memento(spec) is None:
+                if fnmod.pnode_fn(spec).memento(spec) is None:
                     rep.violation("C17:not-stored:%s" % prov, "the partition of link %d (parent from: %s) was not memoized" % (i, prov), meta_i)
                     ok = False
                     break
@@ -163,20 +173,21 @@ def run(tier, seed):
                 try:
                     if i > 0:
                         # storing a child must not change what the parent reads as (e.g. from the memory cache)
-                        pvals, _ = read_partition(fnmod.pnode(spec_for(chain, i - 1, ondisk, ci, dd)))
+                        pvals, _ = read_partition(fnmod.pnode_fn(spec_for(chain, i - 1, ondisk, ci, dd, cls))(spec_for(chain, i - 1, ondisk, ci, dd, cls)))
                         if pvals != overlay(chain, i - 1):
                             rep.violation("C17:parent-changed-by-child", "after storing link %d its parent reads %r instead of %r" % (i, pvals, overlay(chain, i - 1)), meta_i)
-                    reads["second call"] = read_partition(fnmod.pnode(spec))
+                    reads["second call"] = read_partition(fnmod.pnode_fn(spec)(spec))
                     if not keep_written:
                         if cache:
                             b._memory_cache.forget_everything()
-                        reads["from disk"] = read_partition(fnmod.pnode(spec))
+                            bx._memory_cache.forget_everything()
+                        reads["from disk"] = read_partition(fnmod.pnode_fn(spec)(spec))
                     b2 = backend()
-                    fnlib.set_env(m, scratch, {"fc": (b2, None)})
+                    fnlib.set_env(m, scratch, {"fc": (b2, None), "fc2": (backend2(), None)})
                     tr.clear()
-                    reads["fresh backend"] = read_partition(fnmod.pnode(spec))
+                    reads["fresh backend"] = read_partition(fnmod.pnode_fn(spec)(spec))
                     recomputed = [e for e in tr.execs() if e[1] == "pnode"]
-                    fnlib.set_env(m, scratch, {"fc": (b, None)})
+                    fnlib.set_env(m, scratch, {"fc": (b, None), "fc2": (bx, None)})
                     if recomputed:
                         # the memory cache of the first backend can hide that nothing reached the files
                         rep.violation("C17:not-stored:%s" % prov, "a fresh backend over the same files had to execute %d bodies to produce link %d (parent from: %s): the partition had not been stored" % (len(recomputed), i, prov), meta_i)
@@ -199,14 +210,14 @@ def run(tier, seed):
                         rspec = {"id": 900000 + ci * 10 + i, "inner": spec, "depth": rng.choice([0, 0, 1])}
                         rfirst = read_partition(fnmod.prelay(rspec))
                         b3 = backend()
-                        fnlib.set_env(m, scratch, {"fc": (b3, None)})
+                        fnlib.set_env(m, scratch, {"fc": (b3, None), "fc2": (backend2(), None)})
                         reads["relayed by another function (inner from %s), first call" % how_inner] = rfirst
                         reads["relayed by another function (inner from %s), fresh backend" % how_inner] = read_partition(fnmod.prelay(rspec))
-                        fnlib.set_env(m, scratch, {"fc": (b, None)})
+                        fnlib.set_env(m, scratch, {"fc": (b, None), "fc2": (bx, None)})
                         stats["relayed"] = stats.get("relayed", 0) + 1
                     except Exception as e:
                         rep.violation("C17:relay-raised:%s" % type(e).__name__, "returning link %d from another memento function raised %s: %s" % (i, type(e).__name__, str(e)[:150]), meta_i)
-                        fnlib.set_env(m, scratch, {"fc": (b, None)})
+                        fnlib.set_env(m, scratch, {"fc": (b, None), "fc2": (bx, None)})
                 for how, (vals, own) in reads.items():
                     if vals != want:
                         rep.violation("C17:overlay-law:%s" % how.split()[0].rstrip(","), "%s of link %d reads %r, parent entries overlaid by own give %r" % (how, i, vals, want), meta_i)
@@ -225,6 +236,8 @@ def run(tier, seed):
                                                C.coq_list([C.coq_str(k) for k in disk_own])))
                 metas.append(meta_i)
             shutil.rmtree(path, ignore_errors=True)
+            shutil.rmtree(path + "-other", ignore_errors=True)
+            stats["cross_store_chains"] = stats.get("cross_store_chains", 0) + (1 if len(set(cls)) > 1 else 0)
             if len(rep.samples) < 2:
                 rep.samples.append(dict(meta, provenance=provs))
         try:
